@@ -4,7 +4,7 @@ import inspect
 import itertools
 import json
 import random
-from typing import Any, Dict, List, Optional
+from typing import Annotated, Any, Dict, List, Optional
 
 import jsonschema
 import pydantic
@@ -25,7 +25,7 @@ RULE = ('signatures of 1..2 (quick) / 1..3 (thorough) positional-or-keyword / ke
         'with required and additionalProperties false, no constraint} under a top-level object schema with required subsets and '
         'additionalProperties on/off x argument values from a per-type alphabet of conforming / non-conforming values x positional / named '
         'passing (every case also judged by the jsonschema package itself on independently bound arguments); pydantic side: annotations '
-        '{int, str, float, bool, Optional[int], List[int], Dict[str,int], a model class, an enum} x conforming / coercible / non-conforming '
+        '{int, str, float, bool, Optional[int], List[int], Dict[str,int], a model class, an enum, an int with a validator function that raises ValueError} x conforming / coercible / non-conforming '
         'values x coercion on/off, per-argument verdicts from pydantic.TypeAdapter independently of pjrpc. Everything is dispatched '
         'end-to-end. distinct = distinct case; non-trivial = the method body ran')
 EXHAUSTIVE = {'quick': False, 'thorough': False}
@@ -51,7 +51,13 @@ class Color(enum.Enum):
     BLUE = 'blue'
 
 
-ANNS = {'int': int, 'str': str, 'float': float, 'bool': bool, 'optint': Optional[int], 'listint': List[int], 'dictint': Dict[str, int],
+def _even(v):
+    if v % 2:
+        raise ValueError('must be even')        # the usual way a pydantic validator function rejects a value
+    return v
+
+
+ANNS = {'even': Annotated[int, pydantic.AfterValidator(_even)], 'int': int, 'str': str, 'float': float, 'bool': bool, 'optint': Optional[int], 'listint': List[int], 'dictint': Dict[str, int],
         'point': Point, 'color': Color, 'any': Any}
 PVALUES = [1, '1', 'x', 1.5, True, None, [1, '2'], ['a'], {'k': 1}, {'k': 'v'}, {'x': 1, 'y': '2'}, {'x': 'no'}, 'red', 0]
 
@@ -87,7 +93,7 @@ def sigs(maxn, rnd):
     return out
 
 
-GOOD = {'int': [1, 0, '1', True], 'str': ['x', ''], 'float': [1.5, 1, '1'], 'bool': [True, 0, 1], 'optint': [1, None, '1'],
+GOOD = {'even': [2, 0, '4', 3], 'int': [1, 0, '1', True], 'str': ['x', ''], 'float': [1.5, 1, '1'], 'bool': [True, 0, 1], 'optint': [1, None, '1'],
         'listint': [[1, '2'], []], 'dictint': [{'k': 1}, {}], 'point': [{'x': 1, 'y': '2'}, {'x': 0}], 'color': ['red', 'blue'],
         'any': [1, 'x', None, [1], {'k': 1}]}
 
